@@ -106,7 +106,7 @@ func traceAccepted(module, cfgText string, traces [][]brk.TraceEv) (bool, *tlcru
 		}
 		b.Write(brk.MarshalTrace(t))
 	}
-	res, err := tlcrun.Run(tlcrun.Opts{Module: module, Config: "trace_run", Workers: 4, Timeout: 10 * time.Minute,
+	res, err := tlcrun.Run(tlcrun.Opts{Module: module, Config: "trace_run", Workers: 8, Timeout: 10 * time.Minute,
 		Files: map[string][]byte{"trace.ndjson": b.Bytes(), "trace_run.cfg": []byte(cfgText)}})
 	if err != nil {
 		return false, res, err
@@ -225,7 +225,7 @@ func outCampaign(r *ev.Run, prop string) {
 	rng := rand.New(rand.NewSource(r.Seed))
 	t0 := time.Now()
 	caps := []int{0, 1, 4}
-	perCap := 500
+	perCap := 250
 	if r.Tier == "thorough" {
 		perCap = 1 << 30
 	}
